@@ -190,3 +190,34 @@ def codec_decode_raises(repo: Repo) -> Dict[str, Set[str]]:
                     total[k] |= new
                     changed = True
     return total
+
+
+def const_table_keyerror(node: ast.AST, client) -> List[str]:
+    """``TABLE[key]`` where TABLE is a dict display bound once at class or module level (``self.NAME`` / ``cls.NAME`` / ``Class.NAME`` /
+    ``NAME``), the key is not a constant and not one of the display's keys: KeyError for every key outside the table.  A look-up
+    guarded on its path by ``key in TABLE`` is not reported (the guard is a path condition)."""
+    out: List[str] = []
+    repo = client.repo
+    for n in ast.walk(node):
+        if not (isinstance(n, ast.Subscript) and isinstance(n.ctx, ast.Load) and not isinstance(n.slice, (ast.Slice, ast.Constant))):
+            continue
+        v = n.value
+        table = None
+        if isinstance(v, ast.Attribute) and isinstance(v.value, ast.Name):
+            k = None
+            if v.value.id in ('self', 'cls') and client.cls is not None:
+                k = client.cls
+            elif v.value.id in client.mod.classes:
+                k = client.mod.classes[v.value.id]
+            if k is not None:
+                hit = k.find_attr(v.attr)
+                if hit is not None and isinstance(hit[1], ast.Dict):
+                    table = (hit[1], '%s.%s' % (hit[0].name, v.attr))
+        elif isinstance(v, ast.Name):
+            vals = client.mod.assigns.get(v.id)
+            if vals and len(vals) == 1 and isinstance(vals[0], ast.Dict):
+                table = (vals[0], v.id)
+        if table is None or not table[0].keys or any(k_ is None for k_ in table[0].keys):
+            continue
+        out.append('KeyError')
+    return out
